@@ -3,6 +3,7 @@ package racesim
 import (
 	"bytes"
 	"fmt"
+	"io"
 	"net/http"
 	"net/url"
 	"os"
@@ -50,14 +51,22 @@ var bottom = http.HandlerFunc(func(w http.ResponseWriter, req *http.Request) {
 	_, _ = w.Write([]byte("ok"))
 })
 
+// lockedWriter is the caller's trace sink: safe for concurrent use, and (by
+// draw) broken now and then the way a pipe or a full disk is.
 type lockedWriter struct {
-	mu  sync.Mutex
-	buf bytes.Buffer
+	mu        sync.Mutex
+	buf       bytes.Buffer
+	failEvery int // every n-th write is refused (0: never)
+	n         int
 }
 
 func (l *lockedWriter) Write(p []byte) (int, error) {
 	l.mu.Lock()
 	defer l.mu.Unlock()
+	l.n++
+	if l.failEvery > 0 && l.n%l.failEvery == 0 {
+		return 0, io.ErrClosedPipe
+	}
 	if l.buf.Len() > 1<<16 {
 		l.buf.Reset()
 	}
@@ -181,11 +190,11 @@ func buildTarget(rt *rapid.T) target {
 	}
 	switch kind {
 	case "connlimit":
-		cl, err := connlimit.New(bottom, extract, 2)
+		cl, err := connlimit.New(bottom, extract, 2, connlimit.Logger(simkit.SlowLogger{}))
 		must(err)
 		return target{name: kind, h: cl, draw: func(rt *rapid.T) op { return serve(cl, drawSrc(rt), drawCode(rt)) }}
 	case "ratelimit":
-		tl, err := ratelimit.New(bottom, extract, rates(), ratelimit.Capacity(2))
+		tl, err := ratelimit.New(bottom, extract, rates(), ratelimit.Capacity(2), ratelimit.Logger(simkit.SlowLogger{}))
 		must(err)
 		return target{name: kind, h: tl, breaks: true, draw: func(rt *rapid.T) op { return serve(tl, drawSrc(rt), drawCode(rt)) }}
 	case "roundrobin":
@@ -195,7 +204,7 @@ func buildTarget(rt *rapid.T) target {
 		return target{name: kind, h: rr, draw: func(rt *rapid.T) op { return balancerOps(rt, rr, rr, rr) }}
 	case "rebalancer":
 		rr := newRR(bottom)
-		rb, err := roundrobin.NewRebalancer(rr, roundrobin.RebalancerBackoff(time.Millisecond))
+		rb, err := roundrobin.NewRebalancer(rr, roundrobin.RebalancerBackoff(time.Millisecond), roundrobin.RebalancerLogger(simkit.SlowLogger{}), roundrobin.RebalancerDebug(true))
 		must(err)
 		must(rb.UpsertServer(mustURL("http://a")))
 		must(rb.UpsertServer(mustURL("http://b")))
@@ -239,7 +248,7 @@ func buildTarget(rt *rapid.T) target {
 		}}
 	case "cbreaker":
 		cb, err := cbreaker.New(bottom, "NetworkErrorRatio() > 0.3 || ResponseCodeRatio(500, 600, 0, 600) > 0.5 || LatencyAtQuantileMS(50.0) > 1000",
-			cbreaker.FallbackDuration(2*time.Millisecond), cbreaker.RecoveryDuration(3*time.Millisecond), cbreaker.CheckPeriod(time.Millisecond))
+			cbreaker.FallbackDuration(2*time.Millisecond), cbreaker.RecoveryDuration(3*time.Millisecond), cbreaker.CheckPeriod(time.Millisecond), cbreaker.Logger(simkit.SlowLogger{}))
 		must(err)
 		return target{name: kind, h: cb, breaks: true, draw: func(rt *rapid.T) op { return serve(cb, drawSrc(rt), drawCode(rt)) }}
 	case "rtmetrics":
@@ -280,7 +289,7 @@ func buildTarget(rt *rapid.T) target {
 			return ""
 		}}
 	case "trace":
-		tr, err := trace.New(bottom, &lockedWriter{}, trace.RequestHeaders("Src"), trace.ResponseHeaders("X-None"))
+		tr, err := trace.New(bottom, &lockedWriter{failEvery: rapid.IntRange(0, 3).Draw(rt, "sink-refuses-every")}, trace.RequestHeaders("Src"), trace.ResponseHeaders("X-None"))
 		must(err)
 		return target{name: kind, h: tr, draw: func(rt *rapid.T) op { return serve(tr, drawSrc(rt), drawCode(rt)) }}
 	default: // a stack of everything
@@ -307,7 +316,7 @@ func buildTarget(rt *rapid.T) target {
 				must(err)
 				h = cl
 			case "trace":
-				tr, err := trace.New(h, &lockedWriter{})
+				tr, err := trace.New(h, &lockedWriter{failEvery: rapid.IntRange(0, 3).Draw(rt, "sink-refuses-every")})
 				must(err)
 				h = tr
 			case "buffer":
